@@ -79,6 +79,7 @@ type c09Burst struct {
 
 type c09Scenario struct {
 	Idx     int         `json:"idx"`
+	Storm   bool        `json:"storm,omitempty"` // unjudged requests exactly at the probe ticks add lock contention
 	Targets []c09Target `json:"targets"`
 	Bursts  []c09Burst  `json:"bursts"`
 	Horizon int         `json:"horizon_intervals"`
@@ -88,7 +89,7 @@ func c09Gen(rng *rand.Rand, idx int) c09Scenario {
 	if idx%10 == 9 {
 		// flap storm: every target changes state at every probe tick, all at the same instant, so
 		// that their state-change notifications run concurrently; requests between all ticks
-		sc := c09Scenario{Idx: idx, Horizon: 120}
+		sc := c09Scenario{Idx: idx, Horizon: 120, Storm: true}
 		for i := 0; i < 4+rng.IntN(3); i++ {
 			sc.Targets = append(sc.Targets, c09Target{Name: fmt.Sprintf("h%d-t%d:80", idx%5, i), Pattern: "flap", A: 1})
 		}
@@ -206,6 +207,15 @@ func c09Run(t *testing.T, run *Run, sc c09Scenario) {
 					w.Do(Req{ID: fmt.Sprintf("s%d-%d", bi, j), Host: "c09.example", Path: "/s"})
 				}
 			})
+		}
+	}
+	if sc.Storm {
+		// noise: requests fired at the very instants the probes complete (never judged: they are
+		// ties by definition) keep the load balancer's lock busy while the state changes are applied
+		for k := 1; k < sc.Horizon; k++ {
+			for j := 0; j < 16; j++ {
+				w.GoReq(t0+time.Duration(k)*c09Interval, Req{ID: fmt.Sprintf("n%d-%d", k, j), Host: "c09.example", Path: "/n"})
+			}
 		}
 	}
 	w.SleepUntil(t0 + time.Duration(sc.Horizon)*c09Interval + 100*time.Millisecond)
